@@ -526,8 +526,15 @@ class Generator:
                 ml = re.match(r"^loop:(\d+):", anchor)
                 if ml and int(ml.group(1)) in f.loop_headers and int(ml.group(1)) not in loop_info:
                     continue
+                try:
+                    pos = self._anchor_pos(sf, hit, loop_info, anchor, fid)
+                except LostAnchor as e:
+                    # lenient: a proof hint whose anchor is gone is simply not spliced; what follows decides
+                    # (a dangling ghost name makes the unit fail to compile = exit 2, never an alarm)
+                    u.extraction.append("fn %s: ghost text at `%s` NOT spliced: %s" % (fid, anchor[:60], e))
+                    u.missing_outlines.append("%s/at:%s" % (fid, anchor[:40]))
+                    continue
                 nobl["asserts"] += len(re.findall(r"\bassert\b", txt))
-                pos = self._anchor_pos(sf, hit, loop_info, anchor, fid)
                 rk, wrapped = self._region(u, "proof", fid, anchor, "\n" + txt.rstrip() + "\n")
                 edits.append((pos, 0, wrapped))
 
